@@ -173,7 +173,10 @@ impl<T: Tier> Rep3<T> for Quaternion<T> {
 }
 
 fn probes<T: Tier>() -> Vec<[T; 3]> {
-    (0..3).map(|i| vec_from_r::<T, 3>(&alphabet::generic(3, i))).collect()
+    let mut v: Vec<[T; 3]> = (0..3).map(|i| vec_from_r::<T, 3>(&alphabet::generic(3, i))).collect();
+    // a long vector (a far point): with the small angles of the ladders, both factors of a "small angle and large vector" short cut
+    v.push(vec_from_r::<T, 3>(&alphabet::generic(3, 1).iter().map(|r| (r.0 << 14, r.1)).collect::<Vec<_>>()));
+    v
 }
 
 /// All clauses for one (axis, angle) in representation R. `ang` is the angle handed to the
